@@ -155,6 +155,13 @@ func (f *FeeInfo) Validate() error {
 		return core.ErrValidation.Wrap("recipient cannot be the dust collector module account")
 	}
 
+	// A fee paid to the orbiter module account never leaves it. The balance
+	// check of the forwarding only sees the denomination that is forwarded: it
+	// does not notice such a fee when a following action changes the denomination.
+	if recipient.Equals(core.ModuleAddress) {
+		return core.ErrValidation.Wrap("recipient cannot be the orbiter module account")
+	}
+
 	return nil
 }
 
